@@ -113,5 +113,33 @@ func TestVerifReplayParse(t *testing.T) {
 			return
 		}
 	}
-	fmt.Printf("STANDIN inputs=%d bound=\"every sequence of at most %d fragments from a %d-fragment alphabet plus 21 longer shapes, 3 entry points\"\n", n, maxLen, len(verifParseFragments))
+	// escape sequences inside quoted strings, labels, index keys and heredocs: every escape letter
+	// (valid or not), unicode escapes at and around every boundary (surrogates, the last code point,
+	// beyond it, too few digits), and template directives with empty branches
+	escapes := []string{"\\n", "\\r", "\\t", "\\\"", "\\\\", "\\a", "\\0", "\\x41", "\\u", "\\u12", "\\u0041", "\\u00e9", "\\ud7ff", "\\ud800", "\\udbff", "\\udc00", "\\udfff", "\\ue000", "\\uffff", "\\U", "\\U0001F600", "\\U0010FFFF", "\\U00110000", "\\Uffffffff", "\\U0000d800", "\\", "$${", "%%{", "$$", "%%", "$", "%"}
+	for _, e := range escapes {
+		for _, shape := range []string{"a = \"%s\"\n", "a = \"x%sy\"\n", "blk \"%s\" {}\n", "blk \"l\" \"%s%s\" {\n}\n", "a = foo[\"%s\"]\n", "\"%s\"", "foo[\"%s\"]", "a = <<EOT\n%s\nEOT\n", "\"${\"%s\"}\""} {
+			src := fmt.Sprintf(shape, e, e)
+			if i := len(src) - len("%!(EXTRA string="+e+")"); i > 0 && src[i:] == "%!(EXTRA string="+e+")" {
+				src = src[:i]
+			}
+			n++
+			if msg := verifParseCheck(src); msg != "" {
+				t.Errorf("REPLAY-FAIL func=hclsyntax.Parse* input=%q: %s", src, msg)
+				return
+			}
+			if tr, d := ParseTraversalAbs([]byte(src), "t.hcl", hcl.InitialPos); tr == nil && !d.HasErrors() {
+				t.Errorf("REPLAY-FAIL func=hclsyntax.ParseTraversalAbs input=%q: nil traversal without diagnostics", src)
+				return
+			}
+		}
+	}
+	for _, s := range []string{"%{ if a }%{ else }%{ endif }", "%{ if a }x%{ else }%{ endif }", "%{ if a }%{ else }y%{ endif }", "%{ if a }%{ endif }", "%{ for x in l }%{ endfor }", "\"%{ if a }%{ else }%{ endif }\"", "a = <<EOT\n%{ if a }%{ else }%{ endif }\nEOT\n", "%{ if a }%{ else }%{ else }%{ endif }", "%{ if a ~}%{~ else ~}%{~ endif }"} {
+		n++
+		if msg := verifParseCheck(s); msg != "" {
+			t.Errorf("REPLAY-FAIL func=hclsyntax.Parse* input=%q: %s", s, msg)
+			return
+		}
+	}
+	fmt.Printf("STANDIN inputs=%d bound=\"every sequence of at most %d fragments from a %d-fragment alphabet plus 21 longer shapes, 32 escape sequences in 9 string positions, 9 directive shapes with empty branches, 3 (+1) entry points\"\n", n, maxLen, len(verifParseFragments))
 }
